@@ -37,7 +37,8 @@ def rnd_env(S, module, budget, max_calls=None, **extra):
 
 def snapshot(h):
     return (sorted(h.get_nodes()), sorted(h.get_edges()), sorted(h.get_weights(asdict=True).items()),
-            sorted((n, dict(m)) for n, m in h.get_nodes(metadata=True).items()))
+            sorted((n, dict(m)) for n, m in h.get_nodes(metadata=True).items()),
+            sorted((e, dict(h.get_edge_metadata(e))) for e in h.get_edges()))
 
 
 def build(spec):
